@@ -35,6 +35,7 @@ From Coq Require Import PrimFloat.
 From Coq Require Import ZArith List Bool Reals Lra Permutation Sorted.
 From BZ Require Import Base.Ops Gen.Point Gen.Line Gen.Quad Gen.Cubic Gen.CurveDist Hand.MinDist Proofs.C20 Proofs.C20term Proofs.C20termF Base.FloatCmp.
 Import ListNotations.
+From BZ Require Gen.Sample Gen.MinDist Proofs.Bridge4.
 Open Scope R_scope.
 
 Theorem C20_S_is_sqdist_2_2 :
@@ -181,6 +182,39 @@ Proof. exact curveDistance_fuel_irrelevant_F_bounded. Qed.
 Theorem C20_float_run_any_fuel :
   forall fuel, (81 <= fuel)%nat -> curveDistance FOps fuel cubic_a cubic_b = curveDistance FOps 81 cubic_a cubic_b /\ is_ok (curveDistance FOps fuel cubic_a cubic_b) = true.
 Proof. exact float_run_any_fuel. Qed.
+Theorem C20_minDist_gen :
+  forall (T : Type) (O : Ops T) (n m : nat) (Sg : T -> T -> T) (Shand : T -> T -> option T) (Dgen : Z -> Z -> Sample.outcome T) (Dhand : nat -> nat -> option T), (forall u v : T, Shand u v = Some (Sg u v)) -> (forall r k : nat, Dgen (Z.of_nat r) (Z.of_nat k) = match Dhand r k with | Some d => Sample.Returns d | None => Sample.Raises Sample.PyIndexError end) -> forall (fuel : nat) (best : option T) (i : Z), (0 <= i)%Z -> forall umin umax vmin vmax : T, Bridge4.md_rel (MinDist.curvedistance_minDist O (Z.of_nat n + 1) (Z.of_nat m + 1) Sg Dgen fuel (best, i) (umin, umax) (vmin, vmax) (eps_default O)) (minDist O n m Shand Dhand fuel (best, Z.to_nat i) umin umax vmin vmax).
+Proof. exact @Bridge4.minDist_gen. Qed.
+Theorem C20_table_get_Dtab :
+  forall (T : Type) (tbl : list (list T)) (r k : nat), MinDist.table_get tbl (Z.of_nat r) (Z.of_nat k) = match Dtab tbl r k with | Some d => Sample.Returns d | None => Sample.Raises Sample.PyIndexError end.
+Proof. exact @Bridge4.table_get_Dtab. Qed.
+Theorem C20_curveDistance_LL_gen :
+  forall (T : Type) (O : Ops T) (fuel : nat) (a b : seg2 T), Bridge4.cd_rel (MinDist.curvedistance_curveDistance_Line_Line O fuel a b) (curveDistance O fuel (SLine a) (SLine b)).
+Proof. exact @Bridge4.curveDistance_LL_gen. Qed.
+Theorem C20_curveDistance_LQ_gen :
+  forall (T : Type) (O : Ops T) (fuel : nat) (a : seg2 T) (b : seg3 T), Bridge4.cd_rel (MinDist.curvedistance_curveDistance_Line_Quad O fuel a b) (curveDistance O fuel (SLine a) (SQuad b)).
+Proof. exact @Bridge4.curveDistance_LQ_gen. Qed.
+Theorem C20_curveDistance_LC_gen :
+  forall (T : Type) (O : Ops T) (fuel : nat) (a : seg2 T) (b : seg4 T), Bridge4.cd_rel (MinDist.curvedistance_curveDistance_Line_Cubic O fuel a b) (curveDistance O fuel (SLine a) (SCubic b)).
+Proof. exact @Bridge4.curveDistance_LC_gen. Qed.
+Theorem C20_curveDistance_QL_gen :
+  forall (T : Type) (O : Ops T) (fuel : nat) (a : seg3 T) (b : seg2 T), Bridge4.cd_rel (MinDist.curvedistance_curveDistance_Quad_Line O fuel a b) (curveDistance O fuel (SQuad a) (SLine b)).
+Proof. exact @Bridge4.curveDistance_QL_gen. Qed.
+Theorem C20_curveDistance_QQ_gen :
+  forall (T : Type) (O : Ops T) (fuel : nat) (a b : seg3 T), Bridge4.cd_rel (MinDist.curvedistance_curveDistance_Quad_Quad O fuel a b) (curveDistance O fuel (SQuad a) (SQuad b)).
+Proof. exact @Bridge4.curveDistance_QQ_gen. Qed.
+Theorem C20_curveDistance_QC_gen :
+  forall (T : Type) (O : Ops T) (fuel : nat) (a : seg3 T) (b : seg4 T), Bridge4.cd_rel (MinDist.curvedistance_curveDistance_Quad_Cubic O fuel a b) (curveDistance O fuel (SQuad a) (SCubic b)).
+Proof. exact @Bridge4.curveDistance_QC_gen. Qed.
+Theorem C20_curveDistance_CL_gen :
+  forall (T : Type) (O : Ops T) (fuel : nat) (a : seg4 T) (b : seg2 T), Bridge4.cd_rel (MinDist.curvedistance_curveDistance_Cubic_Line O fuel a b) (curveDistance O fuel (SCubic a) (SLine b)).
+Proof. exact @Bridge4.curveDistance_CL_gen. Qed.
+Theorem C20_curveDistance_CQ_gen :
+  forall (T : Type) (O : Ops T) (fuel : nat) (a : seg4 T) (b : seg3 T), Bridge4.cd_rel (MinDist.curvedistance_curveDistance_Cubic_Quad O fuel a b) (curveDistance O fuel (SCubic a) (SQuad b)).
+Proof. exact @Bridge4.curveDistance_CQ_gen. Qed.
+Theorem C20_curveDistance_CC_gen :
+  forall (T : Type) (O : Ops T) (fuel : nat) (a b : seg4 T), Bridge4.cd_rel (MinDist.curvedistance_curveDistance_Cubic_Cubic O fuel a b) (curveDistance O fuel (SCubic a) (SCubic b)).
+Proof. exact @Bridge4.curveDistance_CC_gen. Qed.
 
 Print Assumptions C20_S_is_sqdist_2_2.
 Print Assumptions C20_S_is_sqdist_2_3.
@@ -230,3 +264,14 @@ Print Assumptions C20_seg_Dtable_finite.
 Print Assumptions C20_curveDistance_terminates_F_bounded.
 Print Assumptions C20_curveDistance_fuel_irrelevant_F_bounded.
 Print Assumptions C20_float_run_any_fuel.
+Print Assumptions C20_minDist_gen.
+Print Assumptions C20_table_get_Dtab.
+Print Assumptions C20_curveDistance_LL_gen.
+Print Assumptions C20_curveDistance_LQ_gen.
+Print Assumptions C20_curveDistance_LC_gen.
+Print Assumptions C20_curveDistance_QL_gen.
+Print Assumptions C20_curveDistance_QQ_gen.
+Print Assumptions C20_curveDistance_QC_gen.
+Print Assumptions C20_curveDistance_CL_gen.
+Print Assumptions C20_curveDistance_CQ_gen.
+Print Assumptions C20_curveDistance_CC_gen.
